@@ -18,6 +18,122 @@ def e_T%(T)d(raw: bytes, off: int, d: int, c: int) -> str:
 '''
 
 
+# value-bearing fields the field list names differently from the attribute: described fields (stored under
+# _described_<name>) and fields whose own name starts with an underscore
+DESCRIBED = '''%(prelude)s
+from bisturi.descriptor import Auto, AutoLength
+from vlib.hx import total_repr
+
+
+class Msg(Packet):
+    __bisturi__ = {%(opts)s}
+    kind = Int(1)
+    length = Int(1).describe(AutoLength('payload'))
+    payload = Data(until_marker=b'\\x00')
+
+
+class Und(Packet):
+    __bisturi__ = {%(opts)s}
+    _reserved = Int(1)
+    v = Int(1)
+    _tail = Data(1)
+
+
+class Sum(Packet):
+    __bisturi__ = {%(opts)s}
+    a = Int(1)
+    n = Int(1).describe(Auto(lambda pkt: pkt.a))      # (no arithmetic: CrossHair runs 3-argument getattr untraced)
+
+
+NAMES = {"Msg": ("kind", "length", "payload"), "Und": ("_reserved", "v", "_tail"), "Sum": ("a", "n")}
+
+
+def _vals(p):
+    return tuple(getattr(p, n) for n in NAMES[type(p).__name__])
+
+
+def _cmp(p, q, what):
+    try:
+        eq, ne = (p == q), (p != q)
+    except Exception as e:
+        return None, "FAIL sig=C20|comparison-or-repr-raises-%%s|x_described|%%s" %% (type(e).__name__, what)
+    if eq is not True and eq is not False or ne is not (not eq):
+        return None, "FAIL sig=C20|ne-is-not-the-negation|x_described|%%s" %% what
+    return eq, None
+
+
+def _mk_pair(cls, T):
+    def h(r1: bytes, r2: bytes) -> str:
+        r1 = fix(r1, T)
+        r2 = fix(r2, T)
+        p = cls.unpack(r1, silent=True)
+        q = cls.unpack(r2, silent=True)
+        if p is None or q is None:
+            return "ok:rejected"
+        eq, fail = _cmp(p, q, cls.__name__)
+        if fail:
+            return fail
+        if _vals(p) != _vals(q) and eq:
+            return "FAIL sig=C20|difference-not-detected|x_described|%%s %%r vs %%r" %% (cls.__name__, _vals(p), _vals(q))
+        return "ok:accepted"
+    return h
+
+
+def _mk_mod(cls, T, name):
+    def h(r1: bytes, d: int) -> str:
+        r1 = fix(r1, T)
+        assume(d != 0)
+        p = cls.unpack(r1, silent=True)
+        if p is None:
+            return "ok:rejected"
+        twin = cls.unpack(r1)
+        eq, fail = _cmp(p, twin, cls.__name__)
+        if fail:
+            return fail
+        if not eq:
+            return "FAIL sig=C20|equal-packets-compare-unequal|x_described|%%s" %% cls.__name__
+        # changing one field of the twin (an explicit value for a described one) makes them unequal
+        old = getattr(twin, name)
+        setattr(twin, name, old + d if isinstance(old, int) else old + b"!")
+        eq, fail = _cmp(p, twin, cls.__name__ + "." + name)
+        if fail:
+            return fail
+        if eq:
+            return "FAIL sig=C20|difference-not-detected|x_described|%%s.%%s" %% (cls.__name__, name)
+        try:
+            total_repr(p)
+        except Exception as e:
+            return "FAIL sig=C20|comparison-or-repr-raises-%%s|x_described|repr" %% type(e).__name__
+        return "ok:accepted"
+    return h
+
+
+HARNESSES = {}
+for _cls, _T in ((Msg, 4), (Und, 3), (Sum, 2)):
+    HARNESSES["%%s_pair" %% _cls.__name__] = _mk_pair(_cls, _T)
+    for _n in NAMES[_cls.__name__]:
+        HARNESSES["%%s_mod_%%s" %% (_cls.__name__, _n)] = _mk_mod(_cls, _T, _n)
+'''
+
+
+def _described_obligations():
+    from vlib import spec as S
+    obs = []
+    for gen, opts in (("generic", "'generate_for_pack': False, 'generate_for_unpack': False"), ("generated", "")):
+      for cname, names in (("Msg", ("kind", "length", "payload")), ("Und", ("_reserved", "v", "_tail")), ("Sum", ("a", "n"))):
+        obs.append({"id": "C20/x_described/%s/%s" % (cname, gen), "module": "c20_x_described_%s_%s" % (cname.lower(), gen),
+                    "source": DESCRIBED % dict(prelude=S.PRELUDE, opts=opts),
+                    "fn": ["%s_pair" % cname] + ["%s_mod_%s" % (cname, n) for n in names], "required_tags": ["accepted"],
+                    "timeout": 240,
+                    "bound": "Msg (AutoLength-described length), Und (fields named with a leading underscore), Sum (Auto-described): two "
+                             "packets parsed from two symbolic strings of 4 / 3 / 2 bytes; one field changed by a symbolic non-zero d / b'!'",
+                    "assertion": "attribute values differ => unequal; same bytes => equal; != is the negation; one changed field (described "
+                                 "or underscore-named) => unequal; none raises",
+                    "decl_text": "Msg(kind; length=Int(1).describe(AutoLength('payload')); payload=Data(until NUL)); "
+                                 "Und(_reserved; v; _tail=Data(1)); Sum(a; n=Int(1).describe(Auto(lambda pkt: pkt.a)))"})
+    return obs
+
+
 def build(tier, seed):
     entries = [e for e in select(tier) if "P" not in e["tags"] and "noaccept" not in e["tags"]]
     if tier == "quick":
@@ -40,5 +156,6 @@ def build(tier, seed):
                          "assertion": "two parses of the same bytes are ==, != is the negation, repr() works, different class / non-packet "
                                       "is unequal, none raises; changing any one value-bearing field (also one level down) makes them unequal"})
             obs.append(base)
-    return {"obligations": obs, "bounds": {"declarations": [e["key"] for e in entries]},
+    obs += _described_obligations()
+    return {"obligations": obs, "bounds": {"declarations": [e["key"] for e in entries] + ["x_described"]},
             "outside": ["lists of nested packets are changed by dropping the last element only"], "assumptions": []}
